@@ -31,6 +31,19 @@ def containsL : List Char → List Char → Bool
 def reSearchLiteralCI (pat s : String) : Bool :=
   containsL (lowerAscii pat).toList (lowerAscii s).toList
 
+/-- value of a list of ASCII digits (kernel-reducible) -/
+def natOfDigits (ds : List Char) : Nat := ds.foldl (fun acc c => acc * 10 + (c.toNat - 48)) 0
+
+/-- `str.split(c)` for a one-character separator -/
+def splitOnChar (sep : Char) : List Char → List (List Char)
+  | [] => [[]]
+  | c :: cs =>
+    match splitOnChar sep cs with
+    | [] => [[c]]          -- unreachable: the result is never empty
+    | w :: ws => if c == sep then [] :: w :: ws else (c :: w) :: ws
+
+def splitStr (sep : Char) (s : String) : List String := (splitOnChar sep s.toList).map String.ofList
+
 /-- Python slice `s[start:end]` on a list -/
 def pySlice {α} (xs : List α) (start stop : Int) : List α :=
   let n : Int := xs.length
@@ -57,8 +70,14 @@ def Dec.toPyStr (d : Dec) : String :=
 /-- parse `[+-]?digits[.digits]` / `[+-]?.digits` into a decimal; anything else `none`.
     (`Decimal(str)` accepts more; the correspondence generator stays inside this form
     plus strings that are certainly rejected.) -/
+def isPyWs (c : Char) : Bool := c == ' ' || c == '\t' || c == '\n' || c == '\r' || c == '\x0b' || c == '\x0c'
+
+/-- `str.strip()` for ASCII whitespace (what `int()` and `Decimal()` tolerate around a numeral) -/
+def stripWs (cs : List Char) : List Char :=
+  ((cs.dropWhile isPyWs).reverse.dropWhile isPyWs).reverse
+
 def parseDecSimple (s : String) : Option Dec :=
-  let cs := s.toList
+  let cs := stripWs s.toList
   let (neg, cs) := match cs with
     | '-' :: r => (true, r)
     | '+' :: r => (false, r)
@@ -67,7 +86,7 @@ def parseDecSimple (s : String) : Option Dec :=
   let rest := cs.dropWhile Char.isDigit
   let mk (ip fp : List Char) : Option Dec :=
     if ip.isEmpty && fp.isEmpty then none else
-      let n := (String.ofList (ip ++ fp)).toNat!
+      let n := natOfDigits (ip ++ fp)
       some ⟨if neg then -(n : Int) else n, -(fp.length : Int)⟩
   match rest with
   | [] => if ip.isEmpty then none else mk ip []
@@ -75,20 +94,22 @@ def parseDecSimple (s : String) : Option Dec :=
   | _ => none
 
 def parseIntSimple (s : String) : Option Int :=
-  let cs := s.toList
+  let cs := stripWs s.toList
   let (neg, ds) := match cs with
     | '-' :: r => (true, r)
     | '+' :: r => (false, r)
     | _ => (false, cs)
   if ds.isEmpty || !ds.all Char.isDigit then none
-  else some (if neg then -((String.ofList ds).toNat! : Int) else (String.ofList ds).toNat!)
+  else some (if neg then -(natOfDigits ds : Int) else natOfDigits ds)
 
-/-- `datetime.strptime(x, '%Y-%m-%d')` restricted to the canonical 10-character form. -/
+/-- `datetime.strptime(x, '%Y-%m-%d')`: four-digit year, one- or two-digit month and day
+    (the space-padded day form of `%d` is outside the model). -/
 def parseDateISO (s : String) : Option Date :=
-  match s.toList with
-  | [a, b, c, d, '-', e, f, '-', g, h] =>
-    if [a, b, c, d, e, f, g, h].all Char.isDigit then
-      let dt : Date := ⟨(String.ofList [a, b, c, d]).toNat!, (String.ofList [e, f]).toNat!, (String.ofList [g, h]).toNat!⟩
+  match splitOnChar '-' s.toList with
+  | [y, m, d] =>
+    if y.length == 4 && (m.length == 1 || m.length == 2) && (d.length == 1 || d.length == 2) &&
+        y.all Char.isDigit && m.all Char.isDigit && d.all Char.isDigit then
+      let dt : Date := ⟨natOfDigits y, natOfDigits m, natOfDigits d⟩
       if dt.valid then some dt else none
     else none
   | _ => none
